@@ -28,7 +28,9 @@ DT = 2.0 ** -30
 WINDOWS = {"A": (0, 8), "B": (4, 12), "C": (20, 28), "D": (2, 6), "L": (-3, 37)}
 # "cut" starts on the last sample of window A and ends on the first sample of window C (edge cases of the overlap test)
 QUERY = {"all": (-4, 32), "cut": (7, 21), "far": (40, 48), "half": None}
-KINDS = ["thr", "dipole", "sys_gain", "sys_delay"]
+KINDS = ["thr", "dipole", "sys_gain", "sys_delay", "sys_shift"]
+# sys_shift joins late and with a smaller depth: its front end differs from sys_delay only in *how* the delay is expressed
+SHALLOW = {"sys_shift": {"quick": (4, 2), "thorough": (5, 3)}}
 
 
 def _grid(lo, hi):
@@ -104,6 +106,18 @@ def _build(kind, noisy):
             v = np.concatenate((np.zeros(k), signal.values[:-k])) if k else np.array(signal.values)
             return Signal(signal.times, v, value_type=Signal.Type.voltage)
 
+    class ShiftSys(AntennaSystem):
+        lead_in_time = 3 * DT
+
+        def __init__(self):
+            super().__init__(ThrAnt)
+            self.setup_antenna()
+
+        def front_end(self, signal):
+            # the same delay written the other way round: the samples stay, their time stamps move (a cable delay);
+            # the output is *not* on the grid it was given, the system has to bring it back onto the requested one
+            return Signal(np.asarray(signal.times) + self.lead_in_time, np.array(signal.values), value_type=Signal.Type.voltage)
+
     if kind == "thr":
         return ThrAnt()
     if kind == "dipole":
@@ -114,6 +128,8 @@ def _build(kind, noisy):
         return GainSys()
     if kind == "sys_delay":
         return DelaySys()
+    if kind == "sys_shift":
+        return ShiftSys()
     raise ValueError(kind)
 
 
@@ -151,6 +167,9 @@ def _expected_noiseless(st, times, upto=None):
     if st.kind == "sys_delay":
         for (w, a, t, v) in st.rx[:upto]:
             mask &= ~((times > t[-1]) & (times <= t[-1] + 3 * DT * (1 + 2.0 ** -20)))
+        return _interp_sum(st, times, upto, shift=3 * DT), mask
+    if st.kind == "sys_shift":
+        # every sample of the summed antenna waveform re-appears 3*DT later, whatever the sampling step: no edge effects
         return _interp_sum(st, times, upto, shift=3 * DT), mask
     return _interp_sum(st, times, upto), mask
 
@@ -352,6 +371,8 @@ def cases(tier, seed):
                 d = 3 if noisy else 5
             else:
                 d = 5 if noisy else 6
+            if kind in SHALLOW:
+                d = SHALLOW[kind][tier][1 if noisy else 0]
             # sharded by the first action (each shard explores the sub-tree below it to depth d-1)
             for i in range(len(ACTIONS)):
                 out.append({"obj": kind, "noisy": noisy, "depth": d, "first": i})
